@@ -13,6 +13,7 @@ pub mod c09;
 pub mod c10;
 pub mod c11;
 pub mod c12;
+pub mod c13;
 
 pub fn get(id: &str) -> Option<PropertyDef> {
     match id {
@@ -28,6 +29,7 @@ pub fn get(id: &str) -> Option<PropertyDef> {
         "C10" => Some(c10::def()),
         "C11" => Some(c11::def()),
         "C12" => Some(c12::def()),
+        "C13" => Some(c13::def()),
         _ => None,
     }
 }
